@@ -107,18 +107,31 @@ func (s *single) checkWaitReturn(x *waiter14, err error, ret int) {
 	case err == context.Canceled && (x.cancelReq != 0 || x.errClosed):
 	case err == errCh14 && x.errSent:
 	default:
-		in := s.byErr[err]
-		if in == nil {
+		// (several exits may carry the same error value, e.g. the context.Canceled sentinel)
+		var cands []*inst
+		for _, in := range s.exits {
+			if in.err == err {
+				cands = append(cands, in)
+			}
+		}
+		if len(cands) == 0 {
 			c.Fail("C14.M4.error-from-nowhere", "WaitExited returned %v, which is not the error of any exit of a current instance", err)
 			return
 		}
-		if in.returned > ret {
-			c.Fail("C14.M4.error-before-exit", "WaitExited returned the error of instance %d before that instance returned", in.n)
+		early := true
+		for _, in := range cands {
+			if in.returned <= ret {
+				early = false
+				if s.currentAt(in, x.inv) {
+					return
+				}
+			}
+		}
+		if early {
+			c.Fail("C14.M4.error-before-exit", "WaitExited returned the error of instance %d before that instance returned", cands[0].n)
 			return
 		}
-		if !s.currentAt(in, x.inv) {
-			c.Fail("C14.M4.superseded-error", "WaitExited returned the error of instance %d, which had been superseded before WaitExited was called", in.n)
-		}
+		c.Fail("C14.M4.superseded-error", "WaitExited returned the error of instance %d, which had been superseded before WaitExited was called", cands[len(cands)-1].n)
 	}
 }
 
@@ -159,8 +172,8 @@ func (s *single) settle() {
 			}
 			continue
 		}
-		if !in.liveExit || s.checked[in] {
-			continue
+		if !in.liveExit || s.checked[in] || in.err == context.Canceled {
+			continue // (the sentinel is not unique to one exit: no per-exit count)
 		}
 		s.checked[in] = true
 		c.S.Count("probe:current-exit")
@@ -193,7 +206,7 @@ func (s *single) settle() {
 	}
 	// every failed exit re-checked once more when later callbacks could have duplicated it
 	for err, calls := range s.cbCalls {
-		if in := s.byErr[err]; in != nil && len(calls) > s.ncb {
+		if in := s.byErr[err]; in != nil && err != context.Canceled && len(calls) > s.ncb {
 			c.Fail("C14.M5.exit-callback", "the exit of instance %d was reported %d times to %d callbacks", in.n, len(calls), s.ncb)
 			return
 		}
